@@ -328,6 +328,21 @@ def check_marking(prog, report):
             _mark_iso(report, fi, fn, ml, mark, accval, ind, short)
         else:
             _mark_aniso(report, fi, fn, ml, mark, accval, ind, short)
+        # time pass first, then space pass (on the time halves)
+        first = {}
+        for n in ast.walk(fn):
+            if isinstance(n, ast.For):
+                for m in ast.walk(n):
+                    rc = refine_call(m)
+                    if rc is not None:
+                        first.setdefault(rc[0], n.lineno)
+        report.check(
+            0 in first and 1 in first and first[0] < first[1], 'R-mark',
+            short + ' pass order', fi.where(),
+            'the marked time bisections (with their closure) are applied '
+            'first, the space bisections afterwards on the time halves; '
+            'loops at lines %s' % first,
+            construct=short + ': time pass before space pass')
 
 
 def _mark_iso(report, fi, fn, ml, mark, accval, ind, short):
